@@ -349,6 +349,11 @@ pub trait ValidatorSetExt {
                 &&& exists|n: int| 0 <= n <= self.vs().validators_@.len() && 3 * tally(self.vs(), *commit, *chain_id, n) > 2 * self.vs().total
                 &&& 3 * tally(self.vs(), *commit, *chain_id, self.vs().validators_@.len() as int) > 2 * self.vs().total
             },
+            // [props: C01] every commit signature is bound: an accepted commit has no block-commit entry with an invalid signature
+            res.is_ok() ==> all_commit_sigs_valid(self.vs(), *commit, *chain_id, commit.signatures@.len() as int),
+            // [props: C01] every validator address is bound: entry i names the validator at index i
+            res.is_ok() ==> forall|i: int| 0 <= i < commit.signatures@.len() ==>
+                (#[trigger] sig_entry(*commit, i)).is_some() ==> sig_entry(*commit, i).unwrap().0 == self.vs().validators_@[i].address,
             // exactness: right height, one entry per validator, all block-commit signatures valid => accepted iff power exceeds 2/3
             (self.vs().validators_@.len() == commit.signatures@.len() && *height == commit.height
                 && self.vs().validators_@.len() <= 0x7fff_ffff
